@@ -8,13 +8,14 @@
 From Icv Require Import Base.Tac Notif.NfModel Notif.NfObs Notif.NfProofs Notif.NfBeginProofs Notif.NfStepProofs Notif.NfTheorems.
 Local Open Scope Z_scope.
 
-(* a user is notified only if enabled and, unless the notification may have been forced, every condition of
+(* a user is notified only if enabled and, unless a notification of this type may have been forced (forced
+   request of that type, or a tick while a forced entry of that type is stashed), every condition of
    the statement holds (nf_full_ok: global/checkable enable flags, both periods, both type filters, the
    notification state filter and times window for Problem, the user state filter for all but Recovery) *)
 Theorem C03_filters : forall c h g oi ty sent u,
   In (g, oi, NfoDone ty sent) (nf_run_points c h) -> In u sent ->
   exists ur, In ur (cx_users (oi_ctx oi)) /\ nfu_id ur = u /\ nfu_enable ur = true /\
-             (oi_mayforce oi = false -> nf_full_ok c (oi_now oi) (oi_ctx oi) ty ur = true).
+             (nf_mayforce oi ty = false -> nf_full_ok c (oi_now oi) (oi_ctx oi) ty ur = true).
 Proof. exact nf_sent_filters. Qed.
 Print Assumptions C03_filters.
 
@@ -35,26 +36,23 @@ Theorem C03_forced : forall c now x ty rem s,
 Proof. exact nf_begin_forced. Qed.
 Print Assumptions C03_forced.
 
-(* Recovery / Acknowledgement recipients were sent a Problem in the current incident or do not subscribe to
-   Problem - unless the recorded finding "stale-notified-users" applies to that user (visible hypothesis) *)
+(* Recovery / Acknowledgement recipients were sent a Problem in the current incident (g_inc; for a Recovery the
+   incident it closes, g_pre) or do not subscribe to Problem.  No finding hypothesis any more: the model follows
+   the code with fix c30b63e (notified_problem_users cleared when the type filter drops the Recovery) *)
 Theorem C03_incident : forall c h g oi ty sent u,
   In (g, oi, NfoDone ty sent) (nf_run_points c h) ->
   ty = NfRecovery \/ ty = NfAck -> In u sent ->
-  nf_stale ty u g = false ->
   exists ur, In ur (cx_users (oi_ctx oi)) /\ nfu_id ur = u /\ nfu_enable ur = true /\
              (nf_mem u (nf_inc_set ty g) = true \/ nf_passes (nfu_types ur) 32 = false).
 Proof. exact nf_incident. Qed.
 Print Assumptions C03_incident.
 
-Theorem C03_stale_notified_users_refuted :
-  exists g oi sent u,
-    In (g, oi, NfoDone NfAck sent) (nf_run_points nf_w_stale_cfg nf_w_stale_hist) /\ In u sent /\
-    nf_mem u (nf_inc_set NfAck g) = false /\
-    (forall ur, In ur (cx_users (oi_ctx oi)) -> nfu_id ur = u -> nf_passes (nfu_types ur) 32 = true) /\
-    nf_stale NfAck u g = true /\
-    snd (nf_oracle nf_w_stale_cfg (nf_model_trace nf_w_stale_cfg nf_init nf_w_stale_hist)) = Some (2, 100).
-Proof. exact nf_stale_refuted. Qed.
-Print Assumptions C03_stale_notified_users_refuted.
+(* the former witness of "stale-notified-users": nothing is reported and the Acknowledgement reaches nobody *)
+Theorem C03_stale_notified_users_fixed :
+  nf_oracle nf_w_stale_cfg (nf_model_trace nf_w_stale_cfg nf_init nf_w_stale_hist) = (None, None) /\
+  map (fun p => snd p) (nf_run_points nf_w_stale_cfg nf_w_stale_hist) = [NfoDone NfProblem [1]; NfoClr; NfoDone NfAck []].
+Proof. exact nf_stale_fixed. Qed.
+Print Assumptions C03_stale_notified_users_fixed.
 
 (* non-volatile, request (never a reminder): the Problem's state differs from the state of the last Problem
    this user was sent since the last Recovery notification *)
@@ -65,9 +63,10 @@ Theorem C03_no_duplicate : forall c h g oi sent u,
 Proof. exact nf_no_duplicate. Qed.
 Print Assumptions C03_no_duplicate.
 
-(* a Problem sent by a tick with nothing stashed and no Problem withheld is a reminder: hard problem state,
+(* a Problem sent by a tick with no Problem stashed and no Problem withheld is a reminder: hard problem state,
    not suppressed, reachable, no downtime, not acknowledged, not flapping; at least [interval] after the previous
-   Problem that passed the filters (no times.begin deferral, clock not set back in between); with interval <= 0
+   Problem that passed the filters (g_rem: no operation in between in which an unforced Problem could have been
+   deferred by times.begin - C03_deferral_call says exactly what such a deferral does -, clock not set back); with interval <= 0
    none once a Problem passed the filters for the incident - unless the recorded finding "nomore-reset" applies *)
 Theorem C03_reminders : forall c h g oi sent,
   In (g, oi, NfoDone NfProblem sent) (nf_run_points c h) ->
@@ -86,6 +85,16 @@ Theorem C03_reminder_call : forall c now x s s' e,
   (nfc_interval c <= 0 -> nf_nomore s = false).
 Proof. exact nf_tick_rem_conditions. Qed.
 Print Assumptions C03_reminder_call.
+
+(* times.begin: the only way next_notification is re-armed outside the interval rule, from ANY state *)
+Theorem C03_deferral_call : forall c now x ty force rem s,
+  let r := nf_begin c now x ty force rem s in
+  ne_deferred (snd r) = true ->
+  ty = NfProblem /\ force = false /\ ne_sent (snd r) = [] /\ ne_reached (snd r) = false /\
+  (exists b, nfc_begin c = Some b /\ 0 <= b /\ now < cx_lhsc x + b /\ nf_next (fst r) = cx_lhsc x + b + 1) /\
+  nf_nomore (fst r) = false /\ nf_npu (fst r) = nf_npu s /\ nf_lns (fst r) = nf_lns s.
+Proof. exact nf_begin_deferred. Qed.
+Print Assumptions C03_deferral_call.
 
 Theorem C03_nomore_reset_refuted :
   exists g oi sent,
